@@ -1,5 +1,6 @@
 //! Harness binary for property C04. `c04 C04 [--seed N --worker I --nworkers N --tier T --out F --replay F]`.
 mod check;
+mod galloc_driver;
 
 fn main() {
     vh::runner::main_for(|ctx| check::run(ctx));
